@@ -107,7 +107,8 @@ Clauses(e) ==
         <<"P03.succeeds", WellFormed(e.d, ver) => ok0>>,
         <<"P03.freevars", ok => e.d.freevars = c.freevars>>,
         <<"P03.again", (ok /\ e.again.ran /\ canonical) => e.again.ok>>,
-        <<"P03.passbound", e.hook => Len(e.relax) <= 3 * njumps + 1>>,
+        \* advisory (S.*): the bound MC_Relax proves for the reference loop; the property only asks for termination
+        <<"S03.passbound", e.hook => Len(e.relax) <= 3 * njumps + 1>>,
         \* ---------------- binding of Encode.tla to the code
         <<"M.exc", (m.exc = "") = ok0>>,
         <<"M.exc_type", (m.exc # "" /\ ~ok0) => m.exc = e.out.exc_type>>,
